@@ -45,6 +45,7 @@ THE COMPOSITION (to be assembled by the coordinator once the parser model of C05
 import TonVerif.Proofs.BocEmit
 import TonVerif.Proofs.BocForms
 import TonVerif.Proofs.BocSemFinal
+import TonVerif.Model.Builder
 
 namespace TonVerif.Properties.C03
 open TonVerif TonVerif.Model TonVerif.Model.BocForms TonVerif.Spec.Boc TonVerif.Proofs.BocEmit TonVerif.Proofs.BocForms
@@ -127,6 +128,16 @@ theorem c03_forms_emit (o : Opts) (as : List ARec) (hv : o.valid = true) (h1 : 1
   have hwf := emitted_wf o as h1 hn hP ok
   have := c03_forms _ hwf
   simpa [bodyOf, bocMagic, List.append_assoc] using this
+
+/-- `c03_entrypoints` (Builder): `Builder.one_from_boc` returns `cells[0].to_builder()` = `Builder().store_cell(cell)`; for an
+ordinary cell within the cell limits this never raises and the builder holds exactly the root's data bits and references
+(so `end_cell()` rebuilds the same cell).  (`Slice.one_from_boc` returns `cells[0].begin_parse()` = a slice over copies of the
+root's bits and refs — there is nothing to prove.  For an exotic root `to_builder` raises on purpose: known finding.) -/
+theorem c03_entry_builder {R : Type} (bits : Bits) (refs : List R) (hb : bits.length ≤ 1023) (hr : refs.length ≤ 4) :
+    BOp.storeCell bits refs (Builder.empty : Builder R) = (⟨bits, refs⟩, true) := by
+  have h1 : ¬ (refs.length > 4) := by omega
+  have h2 : ¬ (bits.length > 1023) := by omega
+  simp [BOp.storeCell, BOp.extend, Builder.empty, h1, h2]
 
 /-! Non-vacuity. -/
 example : Bytes.WF [0xb5, 0xee, 0x9c, 0x72, 0x01, 0x02] := by decide
